@@ -1334,6 +1334,7 @@ func (r *runningStep) startStage(container deployer.Plugin) (bool, int64, error)
 
 	// The stop condition (or a close request) may have fired while the input arrived. When both are ready the
 	// select above picks either one, so give the cancellation precedence: a stopped step must not start.
+	verifhook.Emit("SExec", "obj", r, "op", "check")
 	select {
 	case <-r.ctx.Done():
 		r.logger.Debugf("step closed before it could start")
